@@ -37,9 +37,9 @@ void h_compint_to_size(void) {
     size_t n = SPEC_CI_LEN(buf, avail);
     bool valid = (!in.zck_null && in.err0 == 0) && n >= 1 && SPEC_CI_FITS64(buf, n);
     V_ASSERT(r == 0 || r == 1, "C20.to_size.ret01");
-    V_ASSERT((r == 1) == valid, "C20.to_size.accept_iff_valid");
-    V_ASSERT(r != 1 || val == (size_t)SPEC_CI_VAL(buf, n), "C20.to_size.value");
-    V_ASSERT(r != 1 || len == in.off + n, "C20.to_size.length");
+    V_ASSERT((r == 1) == valid, "C20,C13.to_size.accept_iff_valid");
+    V_ASSERT(r != 1 || val == (size_t)SPEC_CI_VAL(buf, n), "C20,C13.to_size.value");
+    V_ASSERT(r != 1 || len == in.off + n, "C20,C13.to_size.length");
     V_COVER(r == 1 && n == 10);
     V_COVER(r == 1 && n == 1);
     V_COVER(r == 0 && n == 0 && avail >= 10);
@@ -63,9 +63,9 @@ void h_compint_to_int(void) {
     size_t n = SPEC_CI_LEN(buf, avail);
     bool valid = (!in.zck_null && in.err0 == 0) && n >= 1 && SPEC_CI_FITSINT(buf, n);
     V_ASSERT(r == 0 || r == 1, "C20.to_int.ret01");
-    V_ASSERT((r == 1) == valid, "C20.to_int.accept_iff_fits_int");
-    V_ASSERT(r != 1 || (val >= 0 && (v_u128)val == SPEC_CI_VAL(buf, n)), "C20.to_int.value");
-    V_ASSERT(r != 1 || len == in.off + n, "C20.to_int.length");
+    V_ASSERT((r == 1) == valid, "C20,C13.to_int.accept_iff_fits_int");
+    V_ASSERT(r != 1 || (val >= 0 && (v_u128)val == SPEC_CI_VAL(buf, n)), "C20,C13.to_int.value");
+    V_ASSERT(r != 1 || len == in.off + n, "C20,C13.to_int.length");
     V_COVER(r == 1 && n == 5);
     V_COVER(r == 0 && n == 5);
     V_COVER(r == 0 && n == 0);
